@@ -397,14 +397,17 @@ def check_result(ctx: Ctx) -> None:
 def check_pareto(ctx: Ctx) -> None:
     f = ctx.index.func(PU, "compute_pareto_optimal_points")
     con = cname(PU, None, "compute_pareto_optimal_points")
-    helper = [s for s in f.body if isinstance(s, ast.FunctionDef)]
-    ok = len(helper) == 1
+    # the quantifier helper: a nested `def h(x): return <e>` or, equivalently, `h = lambda x: <e>` (the engine writes the
+    # former as the latter)
+    helper = [(s.name, [r.value for r in s.body if isinstance(r, ast.Return)][:1], s) for s in f.body if isinstance(s, ast.FunctionDef)]
+    helper += [(s.targets[0].id, [s.value.body], s) for s in f.body if isinstance(s, ast.Assign) and isinstance(s.value, ast.Lambda) and isinstance(s.targets[0], ast.Name)]
+    ok = len(helper) == 1 and bool(helper[0][1])
     if ok:
-        r = [s for s in helper[0].body if isinstance(s, ast.Return)]
-        txt = unparse(r[0].value) if r else ""
-        ok = bool(r) and isinstance(r[0].value, ast.Call) and last_attr(r[0].value) in ("np_all", "all") and isinstance(r[0].value.args[0], ast.Call) and last_attr(r[0].value.args[0]) in ("np_any", "any") and "axis=1" in txt
-    ctx.ob("4.6-quantifiers", con, ok, "a point is non-dominated iff every other point is worse in at least one objective: all over points of any over objectives (axis=1)", node=(helper or [f])[0])
-    hname = helper[0].name if helper else "any_ax1_all"
+        rv_ = helper[0][1][0]
+        txt = unparse(rv_)
+        ok = isinstance(rv_, ast.Call) and last_attr(rv_) in ("np_all", "all") and isinstance(rv_.args[0], ast.Call) and last_attr(rv_.args[0]) in ("np_any", "any") and "axis=1" in txt
+    ctx.ob("4.6-quantifiers", con, ok, "a point is non-dominated iff every other point is worse in at least one objective: all over points of any over objectives (axis=1)", node=(helper[0][2] if helper else f))
+    hname = helper[0][0] if helper else "any_ax1_all"
     loops = [s for s in stmts_of(f) if isinstance(s, ast.For)]
     if len(loops) != 2:
         ctx.ob("4.6-filter", con, False, "the Pareto filter must first go through all the points (infeasible ones are marked non-optimal, feasible ones collected), then compare the feasible ones: the first pass was not found in that form", node=(loops or [f])[0], stmt="filter pass then dominance pass")
